@@ -184,36 +184,34 @@ Proof.
 Qed.
 
 (* ---------- the stages of readFEN, structural side ---------- *)
-Definition finishFEN (p : position) : fenResult :=
-  if negb (Nat.eqb (countPiece p WKING) 1) then FenErr ErrWhiteKing
-  else if negb (Nat.eqb (countPiece p BKING) 1) then FenErr ErrBlackKing
-  else
-    let p2 := setWhiteMove zk p (negb (whiteMove p)) in
-    if inCheck p2 then FenErr ErrKingCapture
-    else FenOk (fixupEPSquare zk p).
+(** Fen.v's own pieces are used through their BEHAVIOUR only: [fenCounters_eq] and [finish_stage]
+    below are the only places that look inside [fenCounters] / [fenFinish]; [readFEN_stages] is the
+    only place that looks inside [readFEN]. *)
+Lemma stoi_nil_guard : forall (tok : str) (p : position) (f : Z -> position),
+  match tok with
+  | [] => p
+  | _ => match stoi tok with Some v => f v | None => p end
+  end = match stoi tok with Some v => f v | None => p end.
+Proof. intros [|c t] p f; reflexivity. Qed.
 
-Definition counter2FEN (p : position) (s : str) : fenResult :=
-  let s := skipSpaces s in
-  let '(tok, s) := token s in
-  let p := match tok with
-           | [] => p
-           | _ => match stoi tok with Some v => setFullMoveCounter p v | None => p end
-           end in
-  finishFEN p.
+(** the two counter fields, in terms of the first token after the blanks *)
+Definition setCounter (set : position -> Z -> position) (p : position) (s : str) : position :=
+  match stoi (fst (token (skipSpaces s))) with Some v => set p v | None => p end.
 
-Definition counter1FEN (p : position) (s : str) : fenResult :=
-  let s := skipSpaces s in
-  let '(tok, s) := token s in
-  let p := match tok with
-           | [] => p
-           | _ => match stoi tok with Some v => setHalfMoveClock p v | None => p end
-           end in
-  counter2FEN p s.
+Lemma fenCounters_eq : forall p s,
+  fenCounters p s =
+  setCounter setFullMoveCounter (setCounter setHalfMoveClock p s) (snd (token (skipSpaces s))).
+Proof.
+  intros p s. unfold fenCounters, setCounter. cbv zeta.
+  destruct (token (skipSpaces s)) as [t1 r1]. cbn [fst snd].
+  destruct (token (skipSpaces r1)) as [t2 r2]. cbn [fst snd].
+  rewrite !stoi_nil_guard. reflexivity.
+Qed.
 
 Definition epFEN (p : position) (s : str) : fenResult :=
   match (match s with [] => inr p | _ => readEp zk p s end) with
   | inl e => FenErr e
-  | inr p => counter1FEN p (snd (token s))
+  | inr p => fenFinish zk (fenCounters p (snd (token s)))
   end.
 
 Definition castleFEN (p : position) (s : str) : fenResult :=
@@ -234,11 +232,10 @@ Lemma readFEN_stages :
                    | inr (p, s) => sideFEN p s
                    end.
 Proof.
-  unfold readFEN, sideFEN, castleFEN, epFEN, counter1FEN, counter2FEN, finishFEN.
+  unfold readFEN, sideFEN, castleFEN, epFEN. cbv zeta.
   destruct (readPlacement zk fen (emptyPosition zk) 7%Z 0%Z) as [e|[p s]]; [reflexivity|].
   destruct (skipSpaces s) as [|c s']; [reflexivity|].
-  destruct (readCastle (skipSpaces s') 0) as [e|[cm s'']]; [reflexivity|].
-  reflexivity.
+  destruct (readCastle (skipSpaces s') 0) as [e|[cm s'']]; reflexivity.
 Qed.
 
 (* ---------- the same stages, index side ---------- *)
@@ -252,9 +249,9 @@ Definition finishIx (p : position) : ix position :=
     if inCheck p2 then IxErr ErrKingCapture
     else IxOk (fixupEPSquare zk p).
 
-Lemma finish_stage : forall p, finishIx p = inject (finishFEN p).
+Lemma finish_stage : forall p, finishIx p = inject (fenFinish zk p).
 Proof.
-  intro p. unfold finishIx, finishFEN.
+  intro p. unfold finishIx, fenFinish.
   destruct (negb (Nat.eqb (countPiece p WKING) 1)); [reflexivity|].
   destruct (negb (Nat.eqb (countPiece p BKING) 1)); [reflexivity|].
   cbv zeta. destruct (inCheck (setWhiteMove zk p (negb (whiteMove p)))); reflexivity.
@@ -295,13 +292,6 @@ Lemma readFENix_stages :
   readFENix zk fen = bindIx (placeIx zk fen fuel0 0 (emptyPosition zk) 7%Z 0%Z) (fun '(p, i) => sideStageIx p i).
 Proof. reflexivity. Qed.
 
-Lemma stoi_nil_guard : forall (tok : str) (p : position) (f : Z -> position),
-  match tok with
-  | [] => p
-  | _ => match stoi tok with Some v => f v | None => p end
-  end = match stoi tok with Some v => f v | None => p end.
-Proof. intros [|c t] p f; reflexivity. Qed.
-
 (** a counter field: value and end index / rest of the string *)
 Lemma counterIx_spec : forall i, (i <= flen)%nat ->
   exists j, counterIx fen fuel0 i = IxOk (stoi (fst (token (skipn i fen))), j) /\ (i <= j <= flen)%nat /\
@@ -313,25 +303,25 @@ Proof.
   rewrite H4. exists j. repeat split; auto; lia.
 Qed.
 
-Lemma counter2_stage : forall p i, (i <= flen)%nat -> counter2Ix p i = inject (counter2FEN p (skipn i fen)).
+Lemma counter2_stage : forall p i, (i <= flen)%nat ->
+  counter2Ix p i = inject (fenFinish zk (setCounter setFullMoveCounter p (skipn i fen))).
 Proof.
-  intros p i Hi. unfold counter2Ix, counter2FEN.
+  intros p i Hi. unfold counter2Ix, setCounter.
   destruct (skipIx_spec fuel0 i Hi) as [j [H1 [H2 H3]]]; [lia|]. rewrite H1. cbn [bindIx]. rewrite <- H3.
   destruct (Nat.ltb_spec j flen) as [L|L].
-  - destruct (counterIx_spec j) as [k [K1 [K2 K3]]]; [lia|]. rewrite K1. cbn [bindIx].
-    destruct (token (skipn j fen)) as [tok rest]. cbn [fst snd] in *. rewrite stoi_nil_guard. apply finish_stage.
-  - assert (skipn j fen = []) as E by (apply skipn_all2; exact L). rewrite E. cbn [token bindIx]. apply finish_stage.
+  - destruct (counterIx_spec j) as [k [K1 [K2 K3]]]; [lia|]. rewrite K1. cbn [bindIx]. apply finish_stage.
+  - assert (skipn j fen = []) as E by (apply skipn_all2; exact L). rewrite E. cbn [token fst bindIx]. apply finish_stage.
 Qed.
 
-Lemma counter1_stage : forall p i, (i <= flen)%nat -> counter1Ix p i = inject (counter1FEN p (skipn i fen)).
+Lemma counter1_stage : forall p i, (i <= flen)%nat ->
+  counter1Ix p i = inject (fenFinish zk (fenCounters p (skipn i fen))).
 Proof.
-  intros p i Hi. unfold counter1Ix, counter1FEN.
+  intros p i Hi. rewrite fenCounters_eq. unfold counter1Ix. unfold setCounter at 2.
   destruct (skipIx_spec fuel0 i Hi) as [j [H1 [H2 H3]]]; [lia|]. rewrite H1. cbn [bindIx]. rewrite <- H3.
   destruct (Nat.ltb_spec j flen) as [L|L].
   - destruct (counterIx_spec j) as [k [K1 [K2 K3]]]; [lia|]. rewrite K1. cbn [bindIx].
-    destruct (token (skipn j fen)) as [tok rest]. cbn [fst snd] in *. rewrite stoi_nil_guard.
     rewrite <- K3. apply counter2_stage. lia.
-  - assert (skipn j fen = []) as E by (apply skipn_all2; exact L). rewrite E. cbn [token bindIx].
+  - assert (skipn j fen = []) as E by (apply skipn_all2; exact L). rewrite E. cbn [token fst snd bindIx].
     rewrite counter2_stage by lia. rewrite E. reflexivity.
 Qed.
 
